@@ -21,7 +21,7 @@ def conv_state(st, k):
             "tgt": {L(i): L(v) for i, v in tgt.items()}, "cls": {L(i): v for i, v in cls.items()}, "foo": {L(i): v for i, v in foo.items()}}
 
 
-CLASSES = {"node": "HNode", "anynode": "HAny", "mixin": "HMixin", "light": "HLight", "symlink": "HSym", "symlinkown": "HSymOwn",
+CLASSES = {"node": "HNode", "anynode": "HAny", "mixin": "HMixin", "light": "HLight", "symlink": "HSym", "symlinkown": "HSymOwn", "lightsub": "HLightSub",
            "falsy": "Adv_falsy_mixin"}
 
 
@@ -43,7 +43,8 @@ def build(pre):
             o = cls(foo=pre["foo"][lbl])
         else:
             o = cls()
-            o.foo = pre["foo"][lbl]
+            for k, v in pre["own"][lbl]:
+                setattr(o, k, v)
         N.register(o, lbl)
         done.add(lbl)
     while len(done) < len(labels):
@@ -79,7 +80,7 @@ def project():
             foo[lbl] = "AttributeError"
         d = getattr(o, "__dict__", None)
         if d is None:       # __slots__ class
-            own[lbl] = [[k, getattr(o, k)] for k in ("foo",) if hasattr(o, k)]
+            own[lbl] = [[k, getattr(o, k)] for k in ("foo", "weight") if hasattr(o, k)]
         else:
             own[lbl] = sorted([k, v] for k, v in d.items() if k not in ("_NodeMixin__children", "_NodeMixin__parent", "target", "name") and isinstance(v, str))
     return {"par": par, "ch": ch, "tgt": tgt, "cls": cls, "foo": foo, "own": own}
